@@ -135,6 +135,8 @@ def spec_strategy(min_vars=1, max_vars=6, families=None, allow_discrete=True, ro
                 d["role"] = draw(st.sampled_from([r for r in roles if r != "plain"] or ["param"]))
                 if last:
                     d["role"] = draw(st.sampled_from(["obs", "obs", "param", "unflagged"] if "unflagged" in roles else ["obs", "param"]))
+                if "both" in roles and draw(st.integers(0, 7)) == 0:
+                    d["role"] = "both"
                 d["support"] = support
             else:
                 d["role"] = "plain"
@@ -230,9 +232,9 @@ def oracle_totals(spec, values):
         tot["log_prob"] += s
         tot["abs"] += float(np.sum(np.abs(t)))
         tot["n_terms"] += int(np.size(t))
-        if d["role"] == "obs":
+        if d["role"] in ("obs", "both"):
             tot["log_lik"] += s
-        if d["role"] == "param":
+        if d["role"] in ("param", "both"):
             tot["log_prior"] += s
     return tot, terms
 
@@ -283,7 +285,10 @@ def build(spec, per_obs_override=None, float_dtype=np.float32, auto_update=True)
             po = d["per_obs"] if per_obs_override is None else per_obs_override[i]
             dist.per_obs = bool(po)
         v = np.asarray(vals[i], dtype=float_dtype)
-        if d["role"] == "param":
+        if d["role"] == "both":            # the two flags are independent attributes: a variable may carry both
+            var = lsl.param(v, dist, name=d["name"])
+            var.observed = True
+        elif d["role"] == "param":
             var = lsl.param(v, dist, name=d["name"])
         elif d["role"] == "obs":
             var = lsl.obs(v, dist, name=d["name"])
